@@ -409,8 +409,10 @@ def run(ctx):
         if rc == 0 and so != out.hex():
             sb = bytes.fromhex(so) if so and all(ch in "0123456789abcdef" for ch in so) else b""
             d = first_diff(sb, out)
-            ctx.violation("mod-frame-number-wrap",
-                          "a transmission of more than 2^15 frames differs from the specification stream (15-bit frame number wrapping to 0, EOS on the last frame only)",
+            early = d is not None and d < 96 + 48 * 32767
+            ctx.violation("mod-bitstream-differs-from-spec" if early else "mod-frame-number-wrap",
+                          "m17-mod -b output differs from the specification stream (32770-frame run)" if early else
+                          "a transmission of more than 2^15 frames differs from the specification stream from frame 32767 on (15-bit frame number wrapping to 0, EOS on the last frame only)",
                           {"src": "WRAP", "can": 1, "audio": f"{n} zero samples ({nframes} frames)", "first_differing_byte": d,
                            "where": locate(d) if d is not None else None, "length_real": len(out), "length_spec": len(sb),
                            "real_around": out[max(0, (d or 0) - 4):(d or 0) + 12].hex(), "spec_around": sb[max(0, (d or 0) - 4):(d or 0) + 12].hex()})
